@@ -5,6 +5,36 @@ ROOT = os.path.dirname(os.path.dirname(os.path.abspath(__file__)))
 ids = [json.loads(l)['id'] for l in open(os.path.join(ROOT, 'properties.jsonl'))]
 
 CLAIMED = {
+ 'C09': dict(
+   technique='runtime monitoring: differential twins (one frame per buffer vs arbitrary chunking) + cursor-accounting monitor + exhaustive two-cut enumeration of short streams',
+   level='exploration',
+   text='250 k (quick) / 10 M (thorough) twin histories: identical operations, but twin A hands recv() exactly one whole frame per buffer (boundaries from an independent reference framer) and twin B an arbitrary partition (single bytes, frame-straddling pieces, several concatenated frames incl. invalid, mutated and over-long-length ones); operation-level normalised event traces must be equal and no call may cross a frame end. All pairs of 13-15 short frames x every pair of cut points are enumerated exhaustively for four role/version/id-width combinations; PacketBuilder::feed reassembly is compared byte for byte on streams with bodies of 0,1,127,128,16383,16384 bytes.',
+   note='Trusted: the reference framer (MQTT §2.2) and the driver twins making identical non-chunking choices (separate PRNG streams).',
+   design='DESIGN.md §4 C09'),
+ 'C10': dict(
+   technique='runtime monitoring: differential twins (reused object vs fresh object with the same options / fresh object + exported session) over driver-generated first connections and seeded second-connection scripts',
+   level='exploration',
+   text='150 k (quick) / 8 M (thorough) (H,S) pairs: H = a monitored driver history with hostile traffic, any negotiated limits and every close path incl. loss in the middle of a frame; S = handshake with different limits + 5-20 operations exercising each limit. New session (clean start / session not present): traces of X (reused) and Y (fresh, same options) must be equal call by call, incl. public probes of store, handled set, vacancy and acquire results. Resumed session: Y first receives X\'s exported session. The hook digest only names the differing fields in a report.',
+   note='Trusted: options are configuration scope; an Undetermined server keeps its adopted version; exchanges awaiting PUBCOMP without a stored PUBREL are not part of an export (such resume cases are skipped and counted).',
+   design='DESIGN.md §4 C10'),
+ 'C11': dict(
+   technique='runtime monitoring over an exhaustively enumerated finite matrix: reference gating table + twin for the as-if-not-made clause + autoref-specialisation probe for the compile-time table',
+   level='exploration',
+   text='All ~20 k cells {Client, Server, Any-as-client, Any-as-server} x {v3.1.1, v5.0, undetermined} x {disconnected, connecting, connected} x 31 send cells x persistent x offline x id width, each through send(), checked_send(concrete type) and checked_send(GenericPacket): outcome must equal the gating table of DESIGN Appendix A; a refused call may only return errors plus the release of its own id and must leave the object indistinguishable (digest and a fixed continuation trace) from a twin that never made the call; `T: Sendable<Role, Id>` observed for all 29 types x 3 roles x 2 id types must equal the role table. Exhaustive.',
+   note='Trusted: DESIGN Appendix A as the reading of "who may send what when"; queue-able cells may be queued or refused.',
+   design='DESIGN.md §4 C11, Appendix A'),
+ 'C16': dict(
+   technique='runtime monitoring: crash-point fault injection + differential twins (uncrashed original vs fresh object + export) + the C06/C07/C08/C12 monitors continuing on the restored object',
+   level='fault_enumeration',
+   text='120 k (quick) / 6 M (thorough) histories under persistent sessions are cut at a random crash point; the export (get_stored_packets, get_qos2_publish_handled) goes into a fresh object; both reconnect with session present and receive the same peer continuation (ack for every exported packet, duplicate/PUBREL/new message for every handled id): retransmission lists and continuation traces must be equal, exported ids must be unregisterable, and the store/id/flow/QoS2 monitors (initialised from the export) must stay silent on the restored object incl. 12 further random operations. Malformed exports (duplicate ids, wrong-version and QoS 0 entries) must be skipped without panic and leave a consistent store.',
+   note='Trusted: as C06-C08/C12; application-held ids die with the process; an exchange between PUBREC and the application\'s PUBREL is not part of the export.',
+   design='DESIGN.md §4 C16'),
+ 'C17': dict(
+   technique='runtime monitoring over an exhaustively enumerated finite matrix (receive gating) + differential twins (Undetermined vs fixed-version server)',
+   level='exploration',
+   text='All 1536 cells role path x version x status x 16 type nibbles x {minimal valid body, empty body} x id width on a primed persistent session: kinds the remote side may never send must yield an error, no delivery, no response and an unchanged session (public view and digest); CONNECT/CONNACK on an established connection likewise. Undetermined server: CONNECT levels 3/4/5/6 and eight other first packets. 300 k (quick) / 10 M (thorough) seeded driver histories run against an Undetermined server and a fixed-version server must give identical call-by-call traces.',
+   note='Trusted: DESIGN Appendix B.',
+   design='DESIGN.md §4 C17, Appendix B'),
  'C05': dict(
    technique='runtime monitoring: online reference-model monitor over call records of seeded random histories (generic driver, hostile peer, small alphabets), every call under catch_unwind in the overflow-checks build (+ second build with assertions/overflow checks off)',
    level='exploration',
